@@ -33,6 +33,7 @@ type hist struct {
 	tssPkt  map[string]*pkt.Pkt
 	tssSeq  uint64
 	// the last accepted TSS receive (replayed right away by the closing steps of a history)
+	forceGap    uint64
 	tssLastNode *core.Node
 	tssLastKey  string
 }
@@ -131,7 +132,13 @@ func runHistory(r *core.Run, cid string, L int) {
 			h.tssTraffic("fresh-bulk")
 		}
 	}
-	// closing steps: a TSS-numbered packet with a sequence >= 2^63 and its immediate replay
+	// closing steps: after an accepted sequence b, b+gap for every gap of the list, each followed by b again
+	for _, g := range seqGaps {
+		h.forceGap = g
+		h.tssTraffic("gap")
+	}
+	h.forceGap = 0
+	// a TSS-numbered packet with a sequence >= 2^63 and its immediate replay
 	h.tssTraffic("fresh-high")
 	h.tssTraffic("replay-last")
 	h.finalCheck()
@@ -171,6 +178,9 @@ func (h *hist) setupTSS() error {
 }
 
 // tssTraffic delivers a fresh packet "from" the TSS-secured chain or replays an accepted one in several forms.
+// seqGaps: distances at which a window of recent sequences, a page of a list or a ring of slots would wrap.
+var seqGaps = []uint64{1, 2, 16, 64, 100, 128, 255, 256, 257, 512, 1000, 1024, 4096, 65536, 1 << 32}
+
 func (h *hist) tssTraffic(mode string) {
 	s := h.s
 	n := s.W.Nodes[s.Rng.Intn(len(s.W.Nodes))]
@@ -200,12 +210,25 @@ func (h *hist) tssTraffic(mode string) {
 	if mode == "replay-last" {
 		accepted = []string{h.tssLastKey}
 	}
-	if mode != "replay-last" && (len(accepted) == 0 || s.Rng.Intn(3) == 0 || mode == "fresh-high" || mode == "fresh-bulk") {
+	if mode != "replay-last" && (len(accepted) == 0 || s.Rng.Intn(3) == 0 || mode == "fresh-high" || mode == "fresh-bulk" || mode == "gap") {
 		// a TSS-secured chain numbers its packets itself: any uint64, in any order (boundary values included)
 		h.tssSeq++
 		seq := h.tssSeq
-		if s.Rng.Intn(2) == 0 && mode != "fresh-bulk" {
+		if s.Rng.Intn(2) == 0 && mode != "fresh-bulk" && mode != "gap" {
 			seq = core.GenUint64(s.Rng)
+		}
+		neighbourOf := ""
+		if (mode == "" && len(accepted) > 0 && s.Rng.Intn(3) == 0) || (mode == "gap" && len(accepted) > 0) {
+			// a sequence at a fixed distance from an accepted one (anything that keeps only a window of recent sequences,
+			// a page of a list or a ring of slots shows when an old number is presented again right afterwards)
+			base := accepted[s.Rng.Intn(len(accepted))]
+			gap := seqGaps[s.Rng.Intn(len(seqGaps))]
+			if h.forceGap != 0 {
+				gap = h.forceGap
+			}
+			if b := h.tssPkt[base].Packet.Sequence; b+gap > b {
+				seq, neighbourOf = b+gap, base
+			}
 		}
 		if mode == "fresh-high" {
 			// sequences at and above 2^63 (where a signed conversion changes the number)
@@ -226,6 +249,11 @@ func (h *hist) tssTraffic(mode string) {
 			h.tssOrig[key], h.tssPkt[key] = msg, pk
 			h.tssLastNode, h.tssLastKey = n, key
 			h.r.Count("tss_recvs_accepted", 1)
+			if neighbourOf != "" {
+				h.r.Count("tss_recvs_at_a_fixed_distance_from_an_accepted_sequence", 1)
+				m := *h.tssOrig[neighbourOf]
+				h.judgeReplay(h.tssPkt[neighbourOf], s.Deliver(n, h.tss, "replay tss/identical-after-a-later-sequence "+h.tssPkt[neighbourOf].Key(), &m), "tss/identical-after-a-later-sequence")
+			}
 		} else {
 			h.r.Count("tss_recvs_rejected", 1)
 		}
